@@ -538,3 +538,29 @@ Qed.
 Lemma load_items_model_table_lemma raises basedir text :
   load_items raises (local_table basedir (ulines text)) text <> Raise LNoOracle.
 Proof. unfold load_items. apply load_lines_no_oracle_miss. auto. Qed.
+
+(* ---------------------------------------------------------------- codecs *)
+
+Lemma codec_roundtrip_lemma c s :
+  forallb (representable c) s = true -> decode_repl c (encode_repl c s) = s.
+Proof.
+  induction s as [|x t IH]; [reflexivity|]. cbn [forallb]. intros H.
+  apply andb_true_iff in H. destruct H as [Hx Ht]. cbn [encode_repl decode_repl map].
+  fold (encode_repl c t). fold (decode_repl c (encode_repl c t)). rewrite (IH Ht), Hx.
+  destruct c; [reflexivity|]. cbn in Hx. destruct (x <? 128) eqn:E; [reflexivity|].
+  apply andb_true_iff in Hx. destruct Hx as [_ Hx]. congruence.
+Qed.
+
+Lemma encode_repl_bytes c s : Forall (fun b => 0 <= b < 256) (encode_repl c s).
+Proof.
+  induction s as [|x t IH]; [constructor|]. cbn [encode_repl map]. constructor; [|exact IH].
+  destruct (representable c x) eqn:E; [|lia]. destruct c; cbn in E; lia.
+Qed.
+
+(* what is written to a .m3u file in encoding c and read back with the same encoding gives
+   the saved items again, when the text is representable *)
+Lemma saved_bytes_load_lemma c raises locals items :
+  Forall line_safe items -> Forall (fun it => mem_str (fst it) raises = false) items ->
+  forallb (representable c) (dump_items items) = true ->
+  load_items raises locals (decode_repl c (encode_repl c (dump_items items))) = Ok items.
+Proof. intros S R H. rewrite (codec_roundtrip_lemma c _ H). apply dump_load_inverse_lemma; assumption. Qed.
